@@ -109,3 +109,19 @@ Theorem C09_numeral_shape num n :
     Forall (fun c => is_ascii_digit c = true) ds /\ digits_val 0 ds = Some n /\ n < 18446744073709551616.
 Proof. exact (parse_usize_shape num n). Qed.
 Print Assumptions C09_numeral_shape.
+
+(* The count is additive over newline-terminated pieces of the content - no line is counted twice or lost at a piece boundary (CR LF included). *)
+Theorem C09_count_additive a b : spec_count (a ++ 10 :: b) = spec_count (a ++ [10]) + spec_count b.
+Proof. exact (spec_count_app_nl a b). Qed.
+Print Assumptions C09_count_additive.
+
+(* Content made of whitespace only (any number of blank lines, any Unicode whitespace) counts zero. *)
+Theorem C09_whitespace_only_counts_zero w : all_ws w -> spec_count w = 0.
+Proof. exact (spec_count_all_ws w). Qed.
+Print Assumptions C09_whitespace_only_counts_zero.
+
+(* Inserting blank lines between two lines never changes the count, hence never the verdict. *)
+Theorem C09_blank_lines_ignored a w b :
+  all_ws w -> spec_count (a ++ 10 :: w ++ 10 :: b) = spec_count (a ++ 10 :: b).
+Proof. exact (spec_count_blank_lines_ignored a w b). Qed.
+Print Assumptions C09_blank_lines_ignored.
